@@ -76,6 +76,9 @@ impl Allocator {
             let id = entity.id() as usize;
 
             if !self.is_alive(entity) {
+                // The entities before `index` were killed above; recycle their
+                // indices before bailing out, otherwise they are never reused.
+                self.cache.extend(delete[..index].iter().map(|e| e.0));
                 return Err((self.del_err(entity), index));
             }
 
